@@ -286,6 +286,10 @@ def run_impl(binary, cases, tmpdir, timeout_case=20, extra_args=None, env_extra=
         done, partial = parse_obs(o)
         res.update(done)
         names = [c.name for c in todo]
+        if partial is None and rc == 42 and not hung:
+            # the harness finished a case it cannot clean up after (e.g. a deadlocked schedule) and asks for a restart
+            todo = [c for c in todo if c.name not in done]
+            continue
         if partial is None and rc == 0 and not hung:
             missing = [n for n in names if n not in done]
             for n in missing: res[n] = ["MISSING"]
